@@ -108,6 +108,16 @@ def one_case(r, cls, kinds):
         fs.updatefilter("f", "f", conds, acts, mt)
         if readback(fs, "f") != want:
             probs.append("read-back after updatefilter differs")
+        # an update to a definition that EXTENDS or SHORTENS the current one (one action or condition more / fewer, the common part
+        # unchanged) is an update like any other
+        for conds_n, acts_n in ((conds, acts + [("stop",)]), (conds, acts[:-1] or [("keep",)]), (conds + [("exists", "List-Id")], acts),
+                                (conds[:-1] or [("exists", "X-Only")], acts), (conds, acts)):
+            fs.updatefilter("f", "f", conds_n, acts_n, mt)
+            want_n = (normalise(conds_n), normalise(acts_n), mt)
+            got_n = readback(fs, "f")
+            if got_n != want_n:
+                probs.append("read-back after an update that extends / shortens the definition differs: supplied %r, read %r" % (want_n, got_n))
+                break
         fs.disablefilter("f")
         # a DIFFERENT definition installed while the filter is disabled must be the one read back
         t2 = gen_factory.Template()
